@@ -2,7 +2,7 @@
 import z3
 from pyvc import z as Z
 from pyvc.values import *   # noqa
-from pyvc.state import RaiseSig, ContractError
+from pyvc.state import RaiseSig, ContractError, Unsupported
 from pyvc.engine import Contract, OpaqueClass
 from pyvc.loops import LoopSpec
 from pyvc import models as M
@@ -26,9 +26,17 @@ def register(E):
         f = FUNCOF(fb.z)
         return ctx.alloc(HDict(dom=DEF(f), arr=DEFVAL(f), kt=TStr, vt=TObj()))
 
+    def unmodelled(name):
+        # a real attribute of boltons' FunctionBuilder that A-fb has no summary for: undecided, never "no such attribute"
+        def read(I, ctx, fb):
+            raise Unsupported('FunctionBuilder.%s is not part of the signature summary (A-fb)' % name)
+        return read
+    fb_unmodelled = dict((n, unmodelled(n)) for n in (
+        'defaults', 'kwonlyargs', 'kwonlydefaults', 'annotations', 'name', 'doc', 'body', 'module', 'dict', 'indent',
+        'is_async', 'filename', 'get_sig_str', 'get_invocation_str', 'get_func', 'add_arg', 'remove_arg'))
     E.add_opaque(OpaqueClass('FB', closed=True, methods={
         'get_arg_names': fb_get_arg_names, 'get_defaults_dict': fb_get_defaults_dict},
-        props={'args': lambda I, ctx, fb: VNames(ARGS(FUNCOF(fb.z))),
+        props={**fb_unmodelled, 'args': lambda I, ctx, fb: VNames(ARGS(FUNCOF(fb.z))),
                'varkw': lambda I, ctx, fb: VOpt(Z.Not(VARKW(FUNCOF(fb.z))), VStr(Z.func('VARKWNAME', Z.Obj, Z.Str)(FUNCOF(fb.z)))),
                'varargs': lambda I, ctx, fb: VOpt(Z.Not(VARARGS(FUNCOF(fb.z))), VStr(Z.func('VARARGSNAME', Z.Obj, Z.Str)(FUNCOF(fb.z))))}))
     E.add_opaque(OpaqueClass('Func', truthy=True, callable_=True))
